@@ -1,3 +1,4 @@
+import TbotVerif.Generated.Params
 /-! # Testcase blocks, decorators and the CLI main loops (C16)
 
 Executable model of `tbot/__init__.py` (`testcase`, `_testcase_block`, `SkipException`, `skip`),
@@ -21,7 +22,7 @@ inductive Form where
   | dec | named | ctx
   deriving DecidableEq, Repr, Inhabited
 
-/-- Exceptions of the domain: an `Exception` subclass (the harness raises `RuntimeError`),
+/-- Exceptions of the domain: an `Exception` subclass (the harness raises `RuntimeError`, `AssertionError`, `ValueError`, a user class),
     `tbot.SkipException` (raised by `tbot.skip`), `KeyboardInterrupt`. -/
 inductive Exc where
   | err | skip | kbd
@@ -36,7 +37,7 @@ inductive Catch where
   | no | exc | all
   deriving DecidableEq, Repr, Inhabited
 
-/-- Python's `except` clause matching: `SkipException` and `RuntimeError` derive from
+/-- Python's `except` clause matching: `SkipException` and the error classes derive from
     `Exception`, `KeyboardInterrupt` only from `BaseException`. -/
 def Catch.catches : Catch → Exc → Bool
   | .no, _ => false
@@ -176,11 +177,10 @@ end
 
 /-! ## the command line tools -/
 
-/-- `tbot.log.NESTING` of a fresh process (module level of tbot/log.py). -/
-def initialNesting : Int := -1
-
-/-- `log_event.tbot_start()`: prints a banner (not a log event), `log.NESTING += 1`. -/
-def tbotStart (nest : Int) : Int := nest + 1
+/-- `tbot.log.NESTING` when the command line tools start their testcase loop: the module level
+    value (`NESTING = -1` in tbot/log.py) plus the one `log_event.tbot_start()` adds.  Observed on
+    every run by harness/tcextract.py (call `tbot_start()` in a fresh interpreter, read `NESTING`). -/
+def topNesting : Int := (Params.tcTopNesting : Int)
 
 /-- `for testcase in args.testcase: run_testcase(testcase)` (newbot) /
     `for tc in args.testcase: … func(**params)` (legacy): no guard, no mark; the first exception
@@ -211,14 +211,13 @@ structure Obs where
   nest : Int
   deriving DecidableEq, Repr, Inhabited
 
-/-- `main()` of both tools from `tbot_start()` on:
+/-- `main()` of both tools after `tbot_start()`:
     `try: with tbot.ctx: <loop>` / `except Exception` → `exception` event, `tbot_end(False)`,
     `sys.exit(1)` / `except KeyboardInterrupt` → `exception` event, `tbot_end(False)`,
     `sys.exit(130)` / `else` → `tbot_end(True)` (and the process ends with status 0).
     (`except SystemExit` of newbot is outside the domain.) -/
 def cliMain (roots : List Node) : Obs :=
-  let nest0 := tbotStart initialNesting
-  let r := cliLoop nest0 roots
+  let r := cliLoop topNesting roots
   match r.val with
   | none => ⟨r.items ++ [.tbotEnd true], .exit 0, r.nest⟩
   | some .kbd => ⟨r.items ++ [.excev .kbd, .tbotEnd false], .exit 130, r.nest⟩
@@ -252,7 +251,7 @@ def Case.wellformed (c : Case) : Bool :=
 def Case.base (c : Case) : Int :=
   match c.mode with
   | .ip => c.nest0
-  | _ => tbotStart initialNesting
+  | _ => topNesting
 
 /-- The model's observation of a case. -/
 def run (c : Case) : Obs :=
